@@ -38,6 +38,17 @@
 //! assert_eq!(controller.limit(), 5); // 11 * 0.5 = 5.5 -> 5
 //! ```
 
+#[cfg(feature = "verif-hooks")]
+#[allow(unused_imports)]
+mod std {
+    pub use ::std::*;
+    pub mod sync {
+        pub use ::std::sync::*;
+        pub mod atomic {
+            pub use crate::verif::atomic::*;
+        }
+    }
+}
 use std::sync::atomic::{AtomicUsize, Ordering};
 
 /// Configuration for an AIMD controller.
